@@ -1320,6 +1320,11 @@ func heldCoq(k string) string {
 }
 
 func genLocks() (string, string) {
+	if os.Getenv("GOFACTS_NO_ALLOW") != "" {
+		// development aid: show what the table says without the allow list (e.g. on a tree that
+		// carries a proposed fix for the FINDING entries)
+		lockAllow = map[string]string{}
+	}
 	// packages from outside the module come from the importer the other generators use (its
 	// cache already holds gRPC/protobuf, type-checked from source for ApplierFacts.v: doing that
 	// a second time costs minutes); the module's own packages are type-checked here, once
